@@ -64,10 +64,12 @@ VALUES = [0, 1, -1, 2, True, False, 1.0, 1.0005, 1.002, 0.9995, 'a', 'A', 'abc',
           '', [], [1], [1, 2], [2, 1], (1, 2), (), {'a': 1}, {}, {1, 2}, None, [1.0005], [[1], [2]], (1, 'a'),
           {1.0005}, {'Hello, World'}, 3, {1}, {'hello world'}, {'k': {1.0005}}, {'k': {1}},
           b'ab', b'AB', frozenset({1, 2}), frozenset({1.0005}), frozenset({1}), 1 + 2j,
-          Card('hearts', 5), Card('spades', 5), Card('hearts', 5)]
+          Card('hearts', 5), Card('spades', 5), Card('hearts', 5),
+          # numbers outside the comfortable range
+          float('inf'), float('-inf'), float('inf'), 10 ** 30, 10 ** 30 + 1, 1e30, -0.0, 2.5e-4]
 CORE = [0, 1, 2, True, 1.0, 1.0005, 1.002, 'a', 'A', 'a!', 'abc', [1], [1, 2], (1, 2), {'a': 1}, {1, 2}, None, [1.0005], {1.0005},
         {1}, {'Hello, World'}, {'hello world'}, b'ab', b'AB', frozenset({1.0005}), frozenset({1}),
-        Card('hearts', 5), Card('spades', 5)]
+        Card('hearts', 5), Card('spades', 5), float('inf'), float('-inf'), 10 ** 30]
 SPECIAL = ['<error>', '<opaque>']
 DELTA = .001
 
@@ -144,9 +146,11 @@ def _is_num(v):
 
 def ref_equal(a, b, exact=False, delta=DELTA):
     if _is_num(a) and _is_num(b):
-        d = abs(a - b)
         if isinstance(a, int) and isinstance(b, int):
             return a == b
+        if a == b:
+            return True            # equal values (equal infinities included) are equal whatever the tolerance
+        d = abs(float(a) - float(b))
         if d < 0.9 * delta:
             return True
         if d > 1.1 * delta:
